@@ -196,6 +196,16 @@ class PyFuncV(Val):
         return f"PyFuncV({self.name})"
 
 
+class DispatchV(Val):
+    """functools.singledispatch object: default implementation plus registry keyed by dotted type name."""
+    def __init__(self, default):
+        self.default = default
+        self.registry = {}
+
+    def __repr__(self):
+        return f"DispatchV({self.default!r}, {sorted(self.registry)})"
+
+
 class SigParamV(Val):
     """An inspect.Parameter as seen through inspect.signature(cls)."""
     def __init__(self, name, kind, has_default):
